@@ -14,6 +14,7 @@ Decided structurally from the serde-generated / hand-written Serialize code:
 Not decided: that toml::to_string emits valid TOML 1.0 for every string payload and that an independent
 parser recovers it (property of the toml crate).
 """
+from . import C07_helpers as H
 from .lib import serde_schema as S
 from .lib.discard import result_fates, verdict
 from .lib.guards import conditions
@@ -146,160 +147,10 @@ def run(ctx, rep):
         rep.check(a_ok, 'R3', 'App', '%s:%d' % (f.file, f.line), 'App => "."', 'App is serialised as %s' % (arms.get('App'),))
         rep.check(d_ok, 'R3', 'Directory', '%s:%d' % (f.file, f.line), 'Directory(p) => p', 'Directory is serialised as %s' % (d and vstr(d[1]),))
     # ---- R4 ------------------------------------------------------------------------------------------
-    # Queue discipline, stated over interprocedural MUST / MAY effects so that helper extraction does not matter:
-    #   or():    on every path pushes (current_provides, current_requires) at the BACK and leaves both lists empty
-    #   build(): on every path first closes the current group the same way (also when it is empty), then takes the
-    #            FRONT as the top-level group; nothing is ever pushed at the front or popped from the back
-    from .lib.effects import Effects
-    QV = {'std::collections::VecDeque::<T, A>::push_back': ('QPUSH_BACK', 1), 'std::collections::VecDeque::<T, A>::push_front': ('QPUSH_FRONT', 1),
-          'std::collections::VecDeque::<T, A>::pop_front': ('QPOP_FRONT', 0), 'std::collections::VecDeque::<T, A>::pop_back': ('QPOP_BACK', 0),
-          'std::collections::VecDeque::<T, A>::insert': ('QPUSH_FRONT', 1)}
-    E = Effects(prog, sl, vocab=QV)
-    orf = prog.fn('libcnb_data::build_plan::BuildPlanBuilder::or')
-    bf = prog.fn('libcnb_data::build_plan::BuildPlanBuilder::build')
-    rep.analysed(orf)
-    rep.analysed(bf)
-
-    def group_tuple_ok(fn, v):
-        """v = (self.current_provides, self.current_requires) — directly or through mem::take"""
-        v = strip(v)
-        if v[0] != 'tuple' or len(v[1]) != 2:
-            return False
-        names = []
-        for x in v[1]:
-            x = strip(x)
-            if x[0] == 'call' and x[1] in ('std::mem::take', 'std::mem::replace') and x[2]:
-                x = strip(x[2][0])
-            names.append(x[2] if x[0] == 'field' and strip(x[1])[0] == 'param' and strip(x[1])[2] == 0 else None)
-        return names == ['current_provides', 'current_requires']
-
-    def resets_ok(e):
-        """both current lists are empty after the push: assigned Vec::new()/default in the pushing function, or taken"""
-        f = e.call.fn
-        v = strip(sl.operand(f, e.call.args[1]))
-        taken = v[0] == 'tuple' and all(strip(x)[0] == 'call' and strip(x)[1] == 'std::mem::take' for x in v[1])
-        if taken:
-            return True
-        got = set()
-        for key, defs in f.defs().items():
-            if isinstance(key, tuple):
-                for d in defs:
-                    if d[0] == 'stmt':
-                        fld = [p_ for p_ in d[4][1:] if p_ != '*']
-                        val = strip(sl._rvalue(f, d[3], set(), 0, None))
-                        if fld and val[0] == 'call' and val[1] in ('std::vec::Vec::<T>::new', 'std::default::Default::default') and f.dominates(e.call.bb, d[1]):
-                            got.add(fld[0])
-        return {'.current_provides', '.current_requires'} <= got
-
-    om = [e for e in E.expand(orf, 'must') if e.kind == 'QPUSH_BACK']
-    ok = len(om) == 1 and group_tuple_ok(orf, om[0].path)
-    rep.check(ok, 'R4', 'or/push_back', '%s:%d' % (orf.file, orf.line), 'or() always appends (current_provides, current_requires) at the back',
-              'or() does not unconditionally push (current_provides, current_requires) at the back of the queue')
-    rep.check(ok and resets_ok(om[0]), 'R4', 'or/reset', '%s:%d' % (orf.file, orf.line), 'both current lists are left empty', 'or() does not reset both current lists')
-    bm = E.expand(bf, 'must')
-    bmay = E.expand(bf, 'may')
-    closes = [e for e in bm if e.kind == 'QPUSH_BACK']
-    order = [id(e) for e in bm]
-    ok = len(closes) == 1
-    if ok:
-        mp = [e for e in bm if e.kind == 'QPOP_FRONT']
-        if mp:
-            ok = order.index(id(closes[0])) < order.index(id(mp[0]))
-        else:
-            # front taken through acc.into_iter().next(): the conversion must happen after the close
-            conv = [c for c in bf.calls if c.decl == 'std::iter::IntoIterator::into_iter' and strip(sl.operand(bf, c.args[0]))[0] == 'field' and strip(sl.operand(bf, c.args[0]))[2] == 'acc']
-            top_close = closes[0].chain[0] if closes[0].chain else closes[0].call
-            ok = len(conv) == 1 and bf.dominates(top_close.bb, conv[0].bb)
-    rep.check(ok, 'R4', 'build/head', '%s:%d' % (bf.file, bf.line), 'build() always closes the current group (even an empty one), then takes the front group as top level',
-              'build() does not unconditionally close the current group before taking the front of the queue: a trailing (empty) alternative can be lost')
-    bad = [e for e in bmay + E.expand(orf, 'may') if e.kind in ('QPUSH_FRONT', 'QPOP_BACK')]
-    rep.check(not bad, 'R4', 'fifo', '%s:%d' % (bf.file, bf.line), 'groups are only appended at the back and taken from the front', 'queue used out of FIFO order: %s' % [e.call.name for e in bad[:2]])
-    # top-level group <- front element (.0 / .1); remaining elements mapped in order to Or{provides <- .0, requires <- .1}.
-    # Accepted idioms: pop_front() + `for alt in acc { or.push(Or{..}) }`, or acc.into_iter(): next() + map(..).collect()
-    reach = [bf] + [f for f in prog.reach([bf]).values() if f.path != bf.path and f.crate == 'libcnb_data']
-
-    def front_elem(v):
-        """v is the element taken from the FRONT of the queue: unwrap(pop_front(acc)) / unwrap(next(into_iter(acc)))"""
-        v = strip(v)
-        if v[0] == 'call' and v[1].endswith('::pop_front'):
-            return True
-        if v[0] == 'call' and v[1] == 'std::iter::Iterator::next':
-            src = strip(v[2][0])
-            return (src[0] == 'field' and src[2] == 'acc') or (src[0] == 'call' and src[1].endswith('into_iter'))
-        return False
-    top = {}
-    vals_all = []
-    for f in reach:
-        vals = []
-        for key, defs in f.defs().items():
-            if isinstance(key, tuple):
-                for d in defs:
-                    if d[0] == 'stmt' and f.locals[d[4][0]].get('head') == 'libcnb_data::build_plan::BuildPlan':
-                        fld = [p_ for p_ in d[4][1:] if p_ != '*'][0]
-                        vals.append((fld, sl._rvalue(f, d[3], set(), 0, None)))
-        for b in f.blocks:
-            for st in b['s']:
-                if st[0] == '=' and st[2]['r'] == 'agg' and st[2].get('adt') == 'libcnb_data::build_plan::BuildPlan':
-                    v = sl._rvalue(f, st[2], set(), 0, None)
-                    vals += [('.' + n, fv) for n, fv in v[3]]
-        vals_all.extend(vals)
-        for fld, v in vals:
-            v0 = strip(v)
-            if fld in ('.provides', '.requires') and v0[0] == 'field' and front_elem(v0[1]):
-                top[fld] = v0[2]
-    rep.check(top.get('.provides') == '0' and top.get('.requires') == '1', 'R4', 'build/top-level', '%s:%d' % (bf.file, bf.line),
-              'top level provides <- front.0, requires <- front.1', 'top-level group is assigned from %s' % top)
-    ors = []
-    cands = {}
-    for f in reach + [g for f0 in reach for g in prog.closures_of(f0)]:
-        cands[f.path] = f
-    for f in cands.values():
-        for b in f.blocks:
-            for st in b['s']:
-                if st[0] == '=' and st[2]['r'] == 'agg' and st[2].get('adt') == 'libcnb_data::build_plan::Or':
-                    ors.append((f, st))
-    ok = len(ors) == 1
-    how = None
-    if ok:
-        f, st = ors[0]
-        v = sl._rvalue(f, st[2], set(), 0, None)
-        fl = dict(v[3])
-        p_, r_ = strip(fl['provides']), strip(fl['requires'])
-        same = p_[0] == 'field' and r_[0] == 'field' and p_[2] == '0' and r_[2] == '1' and strip(p_[1]) == strip(r_[1])
-        elem = strip(p_[1]) if same else ('unknown',)
-        if same and elem[0] == 'call' and elem[1] == 'std::iter::Iterator::next':
-            how = 'loop'
-            in_loop = [c for c in f.calls if c.name == 'std::vec::Vec::<T, A>::push' and f.in_loop(c.bb)]
-            ok = len(in_loop) == 1
-        elif same and elem[0] == 'param' and f.kind == 'Closure':
-            # closure handed to Iterator::map whose result is collected
-            parent = prog.fns.get(f.parent)
-            mp = [c for c in (parent.calls if parent else []) if c.decl == 'std::iter::Iterator::map' and any(y[0] == 'closure' and y[1] == f.path for y in walk(sl.operand(parent, c.args[1])))]
-            how = 'map-collect'
-            ok = len(mp) == 1 and any(c.decl == 'std::iter::Iterator::collect' for c in parent.calls)
-        else:
-            # Or built by a helper handed to Iterator::map (fn item), collected into the `or` field: read the elements of
-            # that field's value with the iterator algebra
-            from .lib import iters
-            ok = False
-            for fld, v in vals_all:
-                if fld != '.or':
-                    continue
-                al = iters.alts(sl, v)
-                if len(al) == 1 and not al[0][2] and al[0][1] is not None:
-                    ev = strip(sl.inline_deep(al[0][0]))
-                    if ev[0] == 'agg' and ev[1] == 'libcnb_data::build_plan::Or':
-                        fl2 = dict(ev[3])
-                        p2, r2 = strip(fl2['provides']), strip(fl2['requires'])
-                        ok = p2[0] == 'field' and r2[0] == 'field' and p2[2] == '0' and r2[2] == '1' and strip(p2[1]) == strip(r2[1]) \
-                            and strip(p2[1])[0] == 'call' and strip(p2[1])[1] == 'std::iter::Iterator::next'
-                        how = 'map(helper)-collect'
-        names = [c.decl or '' for g in reach for c in g.calls if (c.decl or '').startswith(('std::iter::Iterator::', 'std::iter::DoubleEndedIterator::'))]
-        names += [c.name or '' for g in reach for c in g.calls if (c.name or '').startswith(('std::collections::VecDeque', 'core::slice::', 'std::vec::Vec'))]
-        ok = ok and not any(n.split('::')[-1] in ('rev', 'reverse', 'sort', 'sort_by', 'sort_by_key', 'filter', 'filter_map', 'skip', 'take', 'step_by', 'dedup',
-                                                   'rotate_left', 'rotate_right', 'swap', 'make_contiguous') for n in names)
-    rep.check(ok, 'R4', 'build/alternatives', '%s:%d' % (bf.file, bf.line), 'every remaining group mapped in order to Or{provides <- .0, requires <- .1} (%s)' % how,
-              'alternatives are not mapped one-to-one in order')
+    # Queue discipline on the builder's abstract queue (C07_helpers.r4): stated over interprocedural MUST / MAY effects,
+    # the shape of the appended group record and the iterator algebra, so that neither helper extraction nor the
+    # container / record type of the private accumulator matters
+    H.r4(prog, sl, rep)
     # ---- R5 ------------------------------------------------------------------------------------------
     w = prog.fn('libcnb_common::toml_file::write_toml_file')
     rep.analysed(w)
@@ -319,11 +170,16 @@ def run(ctx, rep):
             and strip(e.path)[0] == 'param' and strip(e.path)[2] == 1 and verdict(result_fates(prog, top.fn, top.call if hasattr(top, 'call') else top)) == 'ok'
     rep.check(ok, 'R5', 'write_toml_file', '%s:%d' % (w.file, w.line), 'fs::write(path, toml::to_string(value)?)?', 'write_toml_file is not to_string + write with both errors propagated')
     # all TOML text produced in libcnb / libcnb_common comes from write_toml_file (or the exec.d writer)
-    users = sorted({c.fn.path for f in prog.fns.values() if f.crate in ('libcnb', 'libcnb_common') and not f.path.startswith('libcnb::tracing')
-                    for c in f.calls if c.is_('toml::to_string', 'toml::to_string_pretty', 'toml::ser::to_string')})
-    rep.check(users == ['libcnb::exec_d::write_exec_d_program_output', 'libcnb_common::toml_file::write_toml_file'], 'R5', 'single-writer', '-',
+    # (a serialising call inside a private helper / closure belongs to the public functions it is reachable from)
+    allowed = ['libcnb::exec_d::write_exec_d_program_output', 'libcnb_common::toml_file::write_toml_file']
+    users = sorted({o for f in prog.fns.values() if f.crate in ('libcnb', 'libcnb_common') and not f.path.startswith('libcnb::tracing')
+                    for c in f.calls if c.is_('toml::to_string', 'toml::to_string_pretty', 'toml::ser::to_string')
+                    for o in H.owners(prog, c.fn, allowed)})
+    rep.check(users == allowed, 'R5', 'single-writer', '-',
               'TOML is serialised only in write_toml_file and the exec.d writer', 'TOML is serialised in %s' % users)
     ex = prog.fn('libcnb::exec_d::write_exec_d_program_output')
     rep.analysed(ex)
-    fds = [strip(sl.operand(ex, c.args[0])) for c in ex.calls if c.name and c.name.endswith('from_raw_fd')]
-    rep.check(fds == [('const', 3)], 'R5', 'exec_d/fd3', '%s:%d' % (ex.file, ex.line), 'exec.d output goes to fd 3', 'exec.d output fd: %s' % fds)
+    # every path of the exec.d writer opens raw fd 3 and no path opens another raw fd (directly or in a private helper)
+    fd_must, fd_may = H.fd_effects(prog, sl, ex)
+    rep.check(fd_must == [('const', 3)] and set(fd_may) == {('const', 3)}, 'R5', 'exec_d/fd3', '%s:%d' % (ex.file, ex.line), 'exec.d output goes to fd 3',
+              'exec.d output fd: always %s, possibly %s' % (fd_must, fd_may))
